@@ -1,5 +1,5 @@
 """Developer self-test of layer P (the "planted mutants" of DESIGN section 6):
-    python3-vt vlib/pmutate.py C09 [--max 12]
+    python3-vt vlib/pmutate.py C09 [--max 12] [--fn substring-of-qualname]
 For every function under contract of the property, simple AST mutants of the REAL source are generated in a scratch copy of the package
 (comparison operator swaps, +-1 on integer constants, and<->or, dropped statements, swapped subscripts i-1 <-> i+1), the prover is run on the copy and the
 outcome is classified:  refuted (some obligation `sat`)  /  proof-broken (some obligation undecided)  /  survived (everything still discharged).
@@ -76,7 +76,10 @@ def main():
             targets.setdefault((c.file, c.qualname), c)
     summary = {"refuted": 0, "proof-broken": 0, "survived": 0, "error": 0}
     details = []
+    only = sys.argv[sys.argv.index("--fn") + 1] if "--fn" in sys.argv else None
     for (relfile, qual), c in targets.items():
+        if only and only not in qual:
+            continue
         src_path = os.path.join(REPO, relfile)
         text = open(src_path).read()
         seg = ast.get_source_segment(text, c.node)
